@@ -18,7 +18,7 @@ from ..fin import fm, T, err_class
 ID = "C18"
 COQ_IMPORTS = "From FV Require Import Base Arr Mask."
 COQ_CHECK = "c18_check"
-COQ_MODEL_OBS = "c18_model"
+COQ_MODEL_OBS = "c18_model_show"
 RULE = (
     "sweep of ALL masks of all shapes up to 2x2x2, 3x2/2x3 and 1-D up to 4 (thorough: also 3x2x2, 4x2, 2x4, "
     "1-D up to 6 and random larger shapes) x both orders x masked-array / separate-mask call form x plain / "
@@ -39,8 +39,9 @@ ASSUMPTIONS = [
     "(uninitialised memory in from_compressed)",
     "domain: from_compressed receives exactly as many values as there are unmasked entries; Info objects are "
     "built by the Info constructor (mask shape = grid data shape); Info(mask=None) is not prepared",
-    "acceptance cases use grids that are compatible layouts of one grid (or unset / NoGrid); grid compatibility "
-    "itself is C15's subject",
+    "exchange cases use grids that are compatible layouts of one grid (or unset / NoGrid); grid compatibility "
+    "itself is C15's subject; a side without grid carries its mask in the other side's data shape (it adopts "
+    "that grid; otherwise the Info constructor refuses the mask)",
 ]
 CASE_TIMEOUT = 30
 
@@ -293,7 +294,9 @@ def _side_mask(rng, dims, cbits, g, kind):
         b[i] = not b[i]
         return _mask_in_layout(dims, b, g)
     if kind == "otherdims":
-        d2 = rng.choice([d for d in DIMS if d != list(dims)])
+        cands = [d for d in DIMS if d != list(dims)]
+        same_rank = [d for d in cands if len(d) == len(dims)]
+        d2 = rng.choice(same_rank if same_rank and rng.random() < 0.7 else cands)
         return {"shape": list(d2), "bits": [rng.random() < 0.5 for _ in range(_size(d2))]}
     raise ValueError(kind)
 
@@ -315,7 +318,9 @@ def _gen_accept(rng, n_random, exchange_ratio=0.35):
                               "dims": dims})
                 fam = _family(rng)
                 ga, gb = _side_grid(rng, dims, fam), _side_grid(rng, dims, fam)
-                ma, mb = _side_mask(rng, dims, cbits, ga, ka), _side_mask(rng, dims, cbits, gb, kb)
+                # a side without grid adopts the other side's grid: its mask comes in that layout
+                ma = _side_mask(rng, dims, cbits, ga if ga is not None else gb, ka)
+                mb = _side_mask(rng, dims, cbits, gb if gb is not None else ga, kb)
                 if not (ga is None and gb is None):
                     cases.append({"k": "exchange", "om": ma, "og": ga, "im": mb, "ig": gb, "dims": dims,
                                   "via": "bare" if rep else "comp"})
@@ -333,11 +338,12 @@ def _gen_accept(rng, n_random, exchange_ratio=0.35):
             ga, gb = _side_grid(rng, dims, fam), _side_grid(rng, dims, fam)
             if ga is None and gb is None:
                 gb = {"kind": "nogrid", "shape": list(dims)}
-            ma, mb = _side_mask(rng, dims, cbits, ga, ka), _side_mask(rng, dims, cbits, gb, kb)
+            ma = _side_mask(rng, dims, cbits, ga if ga is not None else gb, ka)
+            mb = _side_mask(rng, dims, cbits, gb if gb is not None else ga, kb)
             cases.append({"k": "exchange", "om": ma, "og": ga, "im": mb, "ig": gb, "dims": dims,
                           "via": rng.choice(["bare", "bare", "comp"])})
         else:
-            if rng.random() < 0.08:
+            if rng.random() < 0.15:
                 mb = _side_mask(rng, dims, cbits, gb, "otherdims")
                 if gb is not None:
                     gb = {"kind": "nogrid", "shape": mb["shape"]}
@@ -366,7 +372,11 @@ def _gen_accept_sweep(dims_list):
                     kind = "same" if j % 2 else "raw"
                     ma = _mask_in_layout(dims, cbits, ga)
                     mb = _mask_in_layout(dims, cbits, gb) if kind == "same" else _raw_in_layout(dims, cbits, gb)
-                    if j % 3 == 0:
+                    exch_ok = ga is None or gb is None or ga["kind"] == gb["kind"]
+                    if j % 3 == 0 and exch_ok:
+                        ma = _mask_in_layout(dims, cbits, ga if ga is not None else gb)
+                        lb = gb if gb is not None else ga
+                        mb = _mask_in_layout(dims, cbits, lb) if kind == "same" else _raw_in_layout(dims, cbits, lb)
                         cases.append({"k": "exchange", "om": ma, "og": ga, "im": mb, "ig": gb, "dims": dims, "via": "bare"})
                     else:
                         cases.append({"k": "accept", "sm": ma, "sg": ga, "im": mb, "ig": gb, "down": j % 4 < 2, "dims": dims})
@@ -415,10 +425,10 @@ CORPUS = [
 def generate(rng, tier):
     cases = list(CORPUS)
     if tier == "quick":
-        cases += _gen_round_sweep(rng, QUICK_SHAPES, full=False)
+        cases += _gen_round_sweep(rng, QUICK_SHAPES, full=True)
         cases += _gen_round_misc(rng, 250)
         cases += _gen_round_random(rng, 150)
-        cases += _gen_prepare(rng, QUICK_SHAPES, 6)
+        cases += _gen_prepare(rng, QUICK_SHAPES, 16)
         cases += _gen_accept(rng, 700)
         cases += _gen_accept_sweep([[2], [2, 2]])[::3]
     else:
@@ -794,8 +804,16 @@ def _mon_exchange(c, o):
         return "exchange refused although the documented relation accepts" if exp else None
     if not exp:
         return f"exchange succeeded although the documented relation refuses (consumer {im}, producer {om})"
-    if r[1] != o["out_mask"]:
-        return "input and output disagree on the mask after the exchange"
+    rm, outm = r[1], o["out_mask"]
+    if _fixed(rm) and _fixed(outm) and rm != outm:
+        # the input may carry the mask in the producer's layout (as the code does) or in its own
+        g_in, g_out = (ig if ig is not None else og), (og if og is not None else ig)
+        try:
+            same = _doc_accepts(rm, outm, g_in, g_out)
+        except Exception:  # noqa  (mask does not fit the layout)
+            same = False
+        if not same:
+            return "input and output hold different fixed masks after the exchange"
     return None
 
 
